@@ -639,3 +639,17 @@ def c02j(ctx):
                   'a cache with several grids is built only with a grid-specific directory (%d rows)' % len(tab.rows), fn,
                   fail='a cache with several grids can be built on one directory: tile addresses of different matrix sets collide '
                        '(e.g. %s)' % (dict((k, v) for k, v in list(bad[0].items())[:3]) if bad else ''))
+
+
+@rule('C02.k', floor=2)
+def c02k(ctx):
+    """shared rule, re-evaluated for this property: a tile that is put together from stored tiles of another level (rescaled tiles) or
+    that a map answer is composed from shows the ground of its own address only if every stored tile is pasted at its own grid slot --
+    the list handed to TiledImage has one entry per tile (missing ones as None), in the row-major order of the lookup (C01.f)"""
+    from ..engine import run_property
+    sub = run_property(ctx.repo, 'C01', ctx.tier, only={'C01.f'})
+    for er in sub.errors:
+        raise Undecided('shared rule %s: %s' % er)
+    for o in sub.obs:
+        (ctx.ok if o.status == 'ok' else ctx.bad)('%s:%s' % (o.rule, o.construct), o.msg, o.where)
+    ctx.stats['functions'] |= sub.stats['functions']
